@@ -29,7 +29,7 @@ type caseIn struct {
 	Msg        string        `json:"msg"`         // message name relative to the package
 	Val        []interface{} `json:"val"`         // abstract value (see value.go)
 	AllocEmpty bool          `json:"alloc_empty"` // empty lists/maps allocated non-nil
-	Stream     string        `json:"stream"`      // field | nested | lenb | full | random | excluded
+	Stream     string        `json:"stream"`      // field | nested | lenb | full | random | excluded | helper
 	Note       string        `json:"note"`        // which field / which boundary value
 	Raw        string        `json:"raw"`         // stream "raw" only: hex of the input bytes (val is null)
 	Fn         string        `json:"fn"`          // stream "glue" only: wrapper of api_host.pb.go
@@ -72,9 +72,9 @@ type obsT struct {
 	PBD2VT decRes `json:"pbd2vt"` // UnmarshalVT(proto.Marshal(m))
 	PBD2PB decRes `json:"pbd2pb"`
 	PB2VT  decRes `json:"pb2vt"` // UnmarshalVT(deterministic proto bytes)
-	VT2PB decRes `json:"vt2pb"` // proto.Unmarshal(MarshalVT bytes)
-	PB2PB decRes `json:"pb2pb"`
-	VT2VT decRes `json:"vt2vt"`
+	VT2PB  decRes `json:"vt2pb"` // proto.Unmarshal(MarshalVT bytes)
+	PB2PB  decRes `json:"pb2pb"`
+	VT2VT  decRes `json:"vt2vt"`
 	// the bytes of the Lean encoder (and accepted variants) through both Go decoders
 	Lean    []leanRes `json:"lean"`
 	LeanErr string    `json:"lean_err"`
